@@ -452,6 +452,15 @@ func (env *SpecEnv) bin(e *SExpr) (SpecVal, error) {
 	}
 	at, bt := env.term(a), env.term(b)
 	isF := env.sortOfVal(a) == "F64" || env.sortOfVal(b) == "F64"
+	if isF {
+		// an integer literal next to a float64 operand is the float of that value
+		if e.Args[0].Kind == SInt && env.sortOfVal(a) != "F64" {
+			at = "((_ to_fp 11 53) RNE " + e.Args[0].Name + ".0)"
+		}
+		if e.Args[1].Kind == SInt && env.sortOfVal(b) != "F64" {
+			bt = "((_ to_fp 11 53) RNE " + e.Args[1].Name + ".0)"
+		}
+	}
 	var t Term
 	var g types.Type = boolT
 	switch e.Name {
@@ -715,6 +724,12 @@ func (env *SpecEnv) call(e *SExpr) (SpecVal, error) {
 			return SpecVal{}, fmt.Errorf("same(a, b)")
 		}
 		return SpecVal{V: tv(eq(env.term(args[0]), env.term(args[1]))), Go: boolT}, nil
+	case "i2f":
+		// float64(n) for an integer n, as the code's conversion computes it
+		if len(args) != 1 {
+			return SpecVal{}, fmt.Errorf("i2f(n)")
+		}
+		return SpecVal{V: tv("((_ to_fp 11 53) RNE (to_real " + env.term(args[0]) + "))"), Go: types.Typ[types.Float64]}, nil
 	case "isnan", "isinf", "isneg", "iszero":
 		// IEEE classification of a float64 term
 		if len(args) != 1 {
